@@ -233,3 +233,7 @@ Example C08_ex_learn_call :
   fst (fst (loop (OffPolicy 7 (-1)) 2 20 (fun _ => false) (repeat 3%nat 6) 0)) = [(12, 6); (18, 6); (24, 6)] /\
   sac_updates 4 6 3 = 6 /\ td3_updates 2 0 6 3 = 9 /\ dqn_updates 5 2 3 0 4 = 6.
 Proof. repeat split; reflexivity. Qed.
+
+(* "every k gradient steps" over the whole run, as the refutation of F9 reads it: steps 0, k, 2k, ... *)
+Example C08_ex_every_k_global : every_k_global 4 6 = [true; false; false; false; true; false] /\ every_k_global 1 3 = [true; true; true].
+Proof. split; reflexivity. Qed.
